@@ -108,7 +108,12 @@ def check(P, R):
     # BaseResponse.__init__: headers via self.headers.append
     bi = P.func(f'{RS}:BaseResponse.__init__')
     fors = [n for n in walk_shallow(bi.node) if isinstance(n, ast.For)]
-    R.require(len(fors) >= 2, 'BaseResponse.__init__: header loops not found')
+    R.require(len(fors) >= 1, 'BaseResponse.__init__: header loops not found')
+    # both header sources (the positional mapping / pair list and the keyword headers) are iterated
+    seen_src = ' '.join(T.xsrc(bi, lp_.iter, bi.cfg.nodes_for(lp_)[0]) for lp_ in fors)
+    R.ob('C14.b', bi, fors[0], bi.params[3] in seen_src and (bi.params[4] if len(bi.params) > 4 else 'more_headers') in seen_src,
+         text='constructor iterates the positional and the keyword headers', detail='' if (bi.params[3] in seen_src) else 'a header source of the constructor is not stored',
+         nontrivial=False)
     for lp in fors:
         calls = [c for st in lp.body for c in walk_shallow(st) if isinstance(c, ast.Call)]
         ok = any(dotted(c.func) == 'self.headers.append' for c in calls) and not any(
@@ -323,61 +328,68 @@ def check_emission(P, R):
         R.ob('C14.d', f, node_, ok, text='(name, v.encode(utf8).decode(latin1)) per value', detail=det,
              why='every emitted value must be a latin-1 native string, multi-valued headers once per value in order')
     # cookies transcoded
-    cookie_appends = [c for c in walk_shallow(f.node) if isinstance(c, ast.Call) and call_attr(c) == 'append' and 'Set-Cookie' in src(c)]
+    cookie_appends = [c for c in walk_shallow(f.node) if isinstance(c, ast.Call) and call_attr(c) in ('append', 'extend') and 'Set-Cookie' in src(c)]
     R.ob('C14.d', f, f.node, bool(cookie_appends), text='cookies emitted', detail='' if cookie_appends else 'no Set-Cookie emission', nontrivial=False)
     for c in cookie_appends:
         ok = False
-        if c.args and isinstance(c.args[0], ast.Tuple) and len(c.args[0].elts) == 2:
-            x = transcode_of(T.expand(f, c.args[0].elts[1], g.node_of_stmt(c)[0]))
+        pair = None
+        if c.args and isinstance(c.args[0], ast.Tuple):
+            pair = c.args[0]
+        elif c.args and isinstance(c.args[0], (ast.GeneratorExp, ast.ListComp)) and isinstance(c.args[0].elt, ast.Tuple):
+            pair = c.args[0].elt            # out.extend(('Set-Cookie', ...) for morsel in ...)
+        if pair is not None and len(pair.elts) == 2:
+            x = transcode_of(T.expand(f, pair.elts[1], g.node_of_stmt(c)[0]))
             ok = x is not None and isinstance(x, ast.Call) and call_attr(x) == 'OutputString'
         R.ob('C14.d', f, c, ok, text="out.append(('Set-Cookie', <morsel>.OutputString().encode('utf8').decode('latin1')))",
              detail='' if ok else 'cookie text is not transcoded utf8->latin1')
-    # blacklist: filter applied under `if bad_headers`, default content type withheld on that branch
-    bt = [n for n in g.nodes if n.kind == 'test' and isinstance(n.ast, ast.Name) and any(
-        d.value is not None and 'bad_headers' in src(d.value) and '_status_code' in src(d.value) for d in rd.at(n, n.ast.id))]
-    R.ob('C14.d', f, bt[0].ast if bt else f.node, bool(bt), text='per-status blacklist looked up by status code', detail='' if bt else
-         'no `bad_headers.get(status)` test')
-    if bt:
-        b = bt[0]
-        bname = b.ast.id
-        filt = [d.stmt for n in g.nodes for d in rd.gen.get(n, []) if d.value is not None and isinstance(d.value, ast.GeneratorExp)
-                and 'not in' in src(d.value) and bname in src(d.value) and g.edge_dominates(b, 'true', n)]
-        if not filt:
-            # loop form: inside the emitting loop `if <name> in <blacklist>: continue` before the pair is appended
-            for (node_, _, _) in emitted:
-                if not isinstance(node_, ast.Call):
+    # blacklist: the names withheld for this status come from bad_headers.get(status); stored headers with such a name are skipped and
+    # the default Content-Type is not added when something is withheld
+    bdefs = [d for n in g.nodes for d in rd.gen.get(n, []) if d.kind == 'assign' and d.value is not None and any(
+        isinstance(x, ast.Call) and call_attr(x) == 'get' and (dotted(x.func.value) or '').endswith('.bad_headers') and x.args and '_status_code' in src(x.args[0])
+        for x in ast.walk(d.value))]
+    R.ob('C14.d', f, bdefs[0].stmt if bdefs else f.node, bool(bdefs), text='per-status blacklist looked up by status code', detail='' if bdefs else
+         'no `bad_headers.get(status)` lookup')
+    if bdefs:
+        bname = bdefs[0].name
+        bnode = bdefs[0].node
+        filt = []
+        # (a) a filtering generator / comprehension: `... if <name> not in <blacklist>`
+        for x in ast.walk(f.node):
+            if isinstance(x, ast.comprehension):
+                for cond in x.ifs:
+                    for y in bool_operands(cond, ast.And):
+                        cp_ = compare_parts(y)
+                        if cp_ and cp_[1] is ast.NotIn and src(cp_[2]) == bname:
+                            filt.append(y)
+        # (b) loop form: inside the emitting loop `if <name> in <blacklist>: continue` before the pair is appended
+        for (node_, _, _) in emitted:
+            if not isinstance(node_, ast.Call):
+                continue
+            an = g.node_of_stmt(node_)[0]
+            outer_l = T.loops_of(node_)[1]
+            nm = outer_l.target.elts[0].id if isinstance(outer_l.target, ast.Tuple) and isinstance(outer_l.target.elts[0], ast.Name) else None
+            head_ = g.nodes_for(outer_l)[0]
+            for tn in g.nodes:
+                if tn.kind != 'test' or not T._inside(tn.ast, outer_l.body):
                     continue
-                an = g.node_of_stmt(node_)[0]
-                outer_l = T.loops_of(node_)[1]
-                nm = outer_l.target.elts[0].id if isinstance(outer_l.target, ast.Tuple) and isinstance(outer_l.target.elts[0], ast.Name) else None
-                head_ = g.nodes_for(outer_l)[0]
-                for tn in g.nodes:
-                    if tn.kind != 'test' or not T._inside(tn.ast, outer_l.body):
-                        continue
-                    cps_ = [compare_parts(x_) for x_ in bool_operands(tn.ast, ast.And)]
-                    if any(cp_ and cp_[1] is ast.In and src(cp_[0]) == nm and src(cp_[2]) == bname for cp_ in cps_):
-                        if not g.can_reach(T.succ_by_label(tn, 'true')[0], an, avoid_nodes=[head_]):
-                            filt.append(tn.ast)
-        R.ob('C14.d', f, filt[0] if filt else b.ast, bool(filt), text='headers filtered by the blacklist', detail='' if filt else
+                cps_ = [compare_parts(x_) for x_ in bool_operands(tn.ast, ast.And)]
+                if any(cp_ and cp_[1] is ast.In and src(cp_[0]) == nm and src(cp_[2]) == bname for cp_ in cps_):
+                    if not g.can_reach(T.succ_by_label(tn, 'true')[0], an, avoid_nodes=[head_]):
+                        filt.append(tn.ast)
+        R.ob('C14.d', f, filt[0] if filt else bdefs[0].stmt, bool(filt), text='headers filtered by the blacklist', detail='' if filt else
              'stored headers are not filtered by the blacklist')
-        # default content type
+        # default content type: not reachable once the blacklist is non-empty (explored with the blacklist name known to be truthy)
+        from ..paths import Explorer, TOBJ
+        X = Explorer(f, P)
         dflt = [c for c in walk_shallow(f.node) if isinstance(c, ast.Call) and call_attr(c) == 'append' and 'default_content_type' in src(c)]
         for c in dflt:
             cn = g.node_of_stmt(c)[0]
-            t = enclosing(c, ast.If)
-            ok, det = False, 'the default Content-Type is appended unconditionally'
-            if t is not None and isinstance(t.test, ast.Name):
-                flag = t.test.id
-                tn = g.nodes_for(t.test)[0]
-                falses = [d.node for n in g.nodes for d in rd.gen.get(n, []) if d.name == flag and isinstance(d.value, ast.Constant)
-                          and d.value.value is False and g.edge_dominates(b, 'true', n)]
-                succ = T.succ_by_label(b, 'true')
-                ok = bool(falses) and all(s in falses or g.must_pass(s, tn, falses) for s in succ)
-                det = '' if ok else ('for a status with a blacklist (204 / 304) the default Content-Type is still appended although '
-                                     'Content-Type is a forbidden entity header there')
-            elif t is not None:
-                ok = bname in names_loaded(t.test)
-                det = '' if ok else det
+            starts = [m for (m, lab) in bnode.succ if lab != 'exc']
+            reach = X.can_reach(starts, cn, state={bname: (bnode, TOBJ)})
+            plain = g.can_reach(bnode, cn)
+            ok = plain and not reach
+            det = '' if ok else ('for a status with a blacklist (204 / 304) the default Content-Type is still appended although '
+                                 'Content-Type is a forbidden entity header there' if plain else 'the default Content-Type is never appended')
             R.ob('C14.d', f, c, ok, detail=det, why='entity headers forbidden for 204 and 304 responses are withheld')
     # table content
     br = P.cls(f'{RS}:BaseResponse')
